@@ -235,7 +235,7 @@ def dump_part(part, st_str=lambda nd: ""):
 
 # ---------------------------------------------------------------- boxes
 def gen_box(rnd, d, mode=None):
-    mode = mode or rnd.choice(["unit", "shift", "neg", "scale", "pow2", "arb", "pow2", "tiny", "zeroedge"])
+    mode = mode or rnd.choice(["unit", "shift", "neg", "scale", "pow2", "arb", "pow2", "tiny", "zeroedge", "far"])
     box = []
     for _ in range(d):
         if mode == "unit":
@@ -248,6 +248,9 @@ def gen_box(rnd, d, mode=None):
             s = 10.0 ** rnd.randint(-6, 6); lo, hi = -s * rnd.random(), s * (0.1 + rnd.random())
         elif mode == "tiny":
             s = 10.0 ** rnd.randint(-12, -7); lo = s * rnd.choice([0.0, -1.0, 1.0, -rnd.random(), rnd.random()]); hi = lo + s * (0.5 + rnd.random())
+        elif mode == "far":          # far from the origin relative to its size: cells reach float resolution after a few dozen levels
+            lo = rnd.choice([-1.0, 1.0]) * 10.0 ** rnd.randint(8, 16) * (1 + rnd.random()); hi = lo + max(abs(lo) * 2.0 ** -rnd.randint(30, 50), 2.0 ** rnd.randint(0, 10))
+            hi = max(hi, math.nextafter(lo, math.inf) + abs(lo) * 2.0 ** -45)
         elif mode == "zeroedge":
             w = rnd.choice([1.0, 2.0, 3.0, 0.5, 10.0]); lo, hi = rnd.choice([(0.0, w), (-w, 0.0), (-w, w), (-w, 2 * w)])
         elif mode == "pow2":
